@@ -10,6 +10,7 @@ class Gen:
 
     def __init__(self, codec, rng, known_ids):
         self.c, self.rng, self.known = codec, rng, known_ids
+        self.known_sorted = sorted(known_ids)
         self.stats = {}
         self.untouchable = set()
         self.raw_field = False
@@ -64,6 +65,16 @@ class Gen:
                 return self.object_of_any_class(depth + 1, auto)
             n = self.length(depth)
             self.note(f'bytes-len-{"short" if n <= 253 else "long"}')
+            if (self.raw_field or not auto) and rng.random() < 0.35:
+                # opaque by declaration (an "untouchable" field) or by mode (auto_deserialize off): bytes that begin with a registered constructor id, or that
+                # ARE a complete encoded object, stay bytes there - only the ambiguous case (auto mode, ordinary field) is steered around
+                self.note('bytes-looking-like-an-object-where-they-must-stay-bytes')
+                if rng.random() < 0.5 and depth < 3:
+                    was = self.raw_field
+                    inner = self.object_of_any_class(depth + 1, False)
+                    self.raw_field = was
+                    return self.c.encode(inner)
+                return rng.choice(self.known_sorted) + rng.randbytes(max(0, n - 4))
             return self.opaque(n)
         if t.startswith('('):
             sub = t[1:-1].split(' ', 1)[1].strip()
@@ -268,6 +279,14 @@ def run(R):
             W = {'constructor': name, 'value': mon.jsonable(v), 'auto_deserialize': auto, 'want_hex': want.hex() if len(want) < 600 else None}
             R.cover('constructors_exercised', name)
             R.case(mon.fp(name, want) if ctor.fields else None, sample={'constructor': name, 'value': mon.jsonable(v)} if len(want) < 200 else None)
+            # now and then the same schemas object first parses damaged versions of this encoding (cut short at random places, one byte changed); what it
+            # does with them is not judged - the valid calls after them must not depend on them (depth guards, counters, caches left behind by a failed parse)
+            if len(want) > 4 and rng.random() < 0.12:
+                for _ in range(10):
+                    bad = want[:rng.randrange(len(want))] if rng.random() < 0.7 else bytes(b ^ (0xFF if i == pos else 0) for pos in [rng.randrange(4, len(want))] for i, b in enumerate(want))
+                    st0, _ = mon.call(lib.deserialize, bad)
+                    R.cover('damaged_parse_outcomes', st0)
+                    R.count('damaged_parses_between_valid')
             # serialise (by object and by name)
             st, got = mon.call(lib.serialize, lib.get_by_name(name), v)
             R.counters['oracle_evaluations'] += 1
@@ -314,7 +333,11 @@ def run(R):
                 st3, g3 = mon.call(lib.serialize, lib.get_by_name(name), v, False)
                 R.check(st3 == 'ok' and g3 == want[4:], 'serialize-unboxed-differs', f'serialize({name}, boxed=False) is not the boxed encoding without its id', W)
                 st4, r4 = mon.call(lib.deserialize, want[4:], False, lib.get_by_name(name).args)
-                if st4 == 'ok' and isinstance(r4, tuple) and isinstance(r4[0], dict):
+                if auto and name in lib_auto.untouchables:
+                    # the unboxed form passes only the field list: the parser cannot know that these are the fields of a constructor with "untouchable"
+                    # fields, so what it does with their bytes in auto mode is not judged
+                    R.count('unboxed_parse_of_untouchable_constructor_not_judged')
+                elif st4 == 'ok' and isinstance(r4, tuple) and isinstance(r4[0], dict):
                     exp4 = v if auto else strip_nested(codec, ctor, v)
                     d4 = first_diff({kk: vv for kk, vv in norm_obj(codec, ctor, exp4).items() if kk != '@type'}, {kk: vv for kk, vv in norm_obj(codec, ctor, dict(r4[0], **{'@type': name})).items() if kk != '@type'})
                     R.check(d4 is None and r4[1] == len(want) - 4, 'deserialize-unboxed-differs', f'deserialize({name} body, boxed=False, args) differs: {d4}, consumed {r4[1]} of {len(want) - 4}', W)
